@@ -199,10 +199,11 @@ def judge(cases, g, m):
     return fails
 
 
-def overflowed(x, got):
-    """x has the largest exponent and the output shows a zero mantissa: the rounded copy became an infinity"""
-    import re
-    return x.form == 1 and x.exp == tc.MAXEXP and re.search(r"(^|[^0-9.])[+-]?0(\.0*)?[eE][+]00", got) is not None
+def overflowed(x, got, want):
+    """x has the largest exponent, the correctly rounded value is 10^MaxExp and the output shows only zero digits:
+    the rounded copy became an infinity"""
+    return (x.form == 1 and x.exp == tc.MAXEXP and "2147483647" in want
+            and all(ch == "0" for ch in got.split("=")[-1] if ch.isdigit()))
 
 
 def judge_op(c, x, ex, t, opn, res, line):
@@ -227,7 +228,7 @@ def judge_op(c, x, ex, t, opn, res, line):
                 return tc.tagged("zero-stale-exponent", "zero with exponent field %d prints %r, want %r" % (x.exp, got[:60], want))
             if f not in "eEfgGbp" and got == "-" + want:
                 return tc.tagged("unknown-format-sign", "unknown format prints %r, want %r" % (got, want))
-            if overflowed(x, got):
+            if overflowed(x, got, want):
                 return tc.tagged("round-overflow-maxexp", "rounding carried past MaxExp: got %r, want %r" % (got[:60], want[:60]))
             return "got %r, want %r (x = %s%de%d, mode %d)" % (got[:80], want[:80], "-" if ex[1] else "", ex[2], ex[3], x.mode)
         return None
@@ -246,16 +247,16 @@ def judge_op(c, x, ex, t, opn, res, line):
             if ref != want:
                 return "reference formatter disagrees with fmt.Sprintf: %r vs %r" % (want, ref)
         if got != want:
-            if stale_zero:
-                return tc.tagged("zero-stale-exponent", "zero with exponent field %d prints %r, want %r" % (x.exp, got[:60], want))
             if vb == "v" and (fl & 1) and got == tc.spec_format(ex, fl, w, p, vb, x.mode, x.prec):
                 return tc.tagged("plus-v", "%%+v prints %r, fmt prints %r for floating-point numbers" % (got, want))
+            if overflowed(x, got, want):
+                return tc.tagged("round-overflow-maxexp", "rounding carried past MaxExp: got %r, want %r" % (got[:60], want[:60]))
+            if stale_zero:
+                return tc.tagged("zero-stale-exponent", "zero with exponent field %d prints %r, want %r" % (x.exp, got[:60], want))
             if (fl & 4) and (fl & 8):
                 return tc.tagged("minus-zero-flags", "flags '-' and '0' together: got %r, fmt pads on the right: %r" % (got, want))
             if ex[0] == "inf" and not ex[1] and (fl & 1) and (fl & 2):
                 return tc.tagged("plus-space-inf", "flags '+' and ' ' on +Inf: got %r, fmt prints %r" % (got, want))
-            if overflowed(x, got):
-                return tc.tagged("round-overflow-maxexp", "rounding carried past MaxExp: got %r, want %r" % (got[:60], want[:60]))
             return "got %r, want %r (flags %d width %d prec %d verb %s)" % (got[:80], want[:80], fl, w, p, vb)
         return None
     return None
